@@ -65,7 +65,16 @@ def drain(body, step=8192):
     return b"".join(out), None
 
 
+SKIP = (("skip", None),)
+
+
 def drain_mixed(body, program):
+    if program == SKIP:
+        return None, None           # the application does not touch the body at all
+    return _drain_mixed(body, program)
+
+
+def _drain_mixed(body, program):
     """Read a body with a call program: a tuple of ('readline', n|None) / ('read', n) steps, the last step repeated
     until the body is exhausted.  Same return shape as drain()."""
     out = []
@@ -101,7 +110,9 @@ def parse_stream(chunks, cfg, peer=PEER, max_requests=8, step=8192, program=None
         for _ in range(max_requests):
             req = next(p)
             body, err = drain(req.body, step) if program is None else drain_mixed(req.body, program)
-            if err is None:
+            if body is None:
+                off = None
+            elif err is None:
                 off = src.pulled - len(p.unreader.buf.getvalue())
                 # chunks the parser had to pull to see the last byte of this message; pulling more means that on a live
                 # socket it would sit in recv() waiting for bytes the message does not need
